@@ -10,7 +10,7 @@ VOX = "fidget-raster/src/voxel.rs"
 
 
 def txt(n):
-    return A.unparse(n).replace(" ", "")
+    return A.ftxt(n)
 
 
 def worker_fn(path, name, root=None):
